@@ -116,6 +116,9 @@ class DecayChainViewer:
                     label += f'<TR><TD BORDER="1" CELLPADDING="5" PORT="p{i}">{safe_html_name(n)}</TD></TR>'
                 else:
                     label += f'<TD BORDER="0" CELLPADDING="2">{safe_html_name(n)}</TD>'
+            if not names and not add_tags:
+                # A decay mode without daughters still needs a cell: Graphviz rejects an empty table row
+                label += '<TD BORDER="0" CELLPADDING="2"></TD>'
             label += "{tr}</TABLE>>".format(tr="" if add_tags else "</TR>")
             return label
 
